@@ -192,6 +192,7 @@ theorem step_assemble {cfg : Cfg} {st st' : St} {g : Ghost} {op : Op} {out : Out
     (hends : ∀ s0, p.soi = some s0 → p.expect = .ends → s0 ∉ Dict.keys st'.db)
     (hrem : pendingRemovedOk p (obsOf st) (obsOf st') = true)
     (hadd : pendingAddedOk g p (obsOf st) (obsOf st') = true)
+    (hgone : consumedGoneOk p (obsOf st') = true)
     (hreq : requestOk cfg g p out = true)
     (hstat : statusOk op out (obsOf st') = true)
     (hnow : st'.now = nowAfter st op)
@@ -227,7 +228,8 @@ theorem step_assemble {cfg : Cfg} {st st' : St} {g : Ghost} {op : Op} {out : Out
   have hpres : presenceAllOk p (obsOf st) (obsOf st') = true := presence_of_shape rfl rfl hshape
   have hsrc : sourcesOk p op (obsOf st) (obsOf st') = true := sources_of_shape rfl rfl hshape
   refine ⟨?_, ?_⟩
-  · simp only [specStep, hp, hread, hendsOk, hpres, hsrc, hrem, hadd, hreq, hstat, hli, flag, if_true, List.append_nil]
+  · simp only [specStep, hp, hread, hendsOk, hpres, hsrc, hrem, hadd, hgone, hreq, hstat, hli, flag, if_true,
+      List.append_nil]
   · simp only [specStep, hp]
     exact hinv'
 
@@ -243,6 +245,16 @@ theorem added_same {g : Ghost} {p : Plan} {o o' : Obs} (h : o'.pending = o.pendi
   intro rid hr
   rw [h] at hr
   simp [hr]
+
+theorem gone_none {p : Plan} {o : Obs} (h : p.consumed = none) : consumedGoneOk p o = true := by
+  unfold consumedGoneOk; rw [h]
+
+theorem gone_of_not_mem {p : Plan} {st' : St} {rid : ReqId} (h : p.consumed = some rid)
+    (hn : Dict.get? rid st'.pending = none) : consumedGoneOk p (obsOf st') = true := by
+  unfold consumedGoneOk
+  rw [h]
+  have : ¬ rid ∈ (obsOf st').pending := (Dict.not_mem_keys_iff _ _).mpr hn
+  simp [this]
 
 theorem request_nil {cfg : Cfg} {g : Ghost} {p : Plan} {out : Out} (h : emitted out = []) : requestOk cfg g p out = true := by
   unfold requestOk
